@@ -4,6 +4,7 @@ from vlib import Check, zlit
 
 KF_NULL = "C25-null-partition-value"
 KF_NAME = "C25-partition-column-name-needs-encoding"
+KF_NAN = "C25-parquet-nan-constant-column"
 
 TY = {"int": "TyInt", "str": "TyStr", "bool": "TyBool", "date": "TyDate", "float": "TyOpq"}
 
@@ -86,11 +87,14 @@ def run(pid, tier, seed, replay):
             key = KF_NULL
         elif c.get("weird_name"):
             key = KF_NAME
+        elif c.get("nan_const") and c.get("why", "").startswith("read-back bag differs"):
+            key = KF_NAN
         small = {k: c.get(k) for k in ("tag", "fmt", "opts", "cols", "pby", "batches", "files", "readback", "write_error") if k in c}
         ck.fail_input("write/read round trip: " + c.get("why", "")[:900], small, key=key)
     ck.log("harness: %s (%.1fs)" % (kinds, dt))
     # the fixed witnesses of the listed findings must still fail (else the finding is stale)
-    for tag, kf in (("W1-null-utf8-partition", KF_NULL), ("W2-null-int-partition", KF_NULL), ("W3-partition-column-name-needs-encoding", KF_NAME)):
+    for tag, kf in (("W1-null-utf8-partition", KF_NULL), ("W2-null-int-partition", KF_NULL), ("W3-partition-column-name-needs-encoding", KF_NAME),
+                    ("W6-parquet-nan-constant-column", KF_NAN)):
         ws = [c for c in cases if c.get("tag") == tag]
         if not ws:
             ck.problem("tie", "fixed witness %s did not run" % tag)
